@@ -290,7 +290,9 @@ func checkLayout(p *Prog, l *Ledger, rule, what string, parts []layoutPart, read
 	for f, iv := range reader {
 		rs = append(rs, named{f, iv})
 	}
-	sort.Slice(rs, func(i, j int) bool { return rs[i].iv.lo < rs[j].iv.lo || (rs[i].iv.lo == rs[j].iv.lo && rs[i].f < rs[j].f) })
+	sort.Slice(rs, func(i, j int) bool {
+		return rs[i].iv.lo < rs[j].iv.lo || (rs[i].iv.lo == rs[j].iv.lo && rs[i].f < rs[j].f)
+	})
 	for i := 1; i < len(rs); i++ {
 		if rs[i].iv.lo < rs[i-1].iv.hi {
 			l.Fail(rule, "", rule+"|"+what+"|overlap|"+rs[i-1].f+"|"+rs[i].f, "", fmt.Sprintf("the %s reader takes %s from [%d,%d) and %s from [%d,%d): the fields overlap", what, rs[i-1].f, rs[i-1].iv.lo, rs[i-1].iv.hi, rs[i].f, rs[i].iv.lo, rs[i].iv.hi))
